@@ -10,6 +10,28 @@ pub struct PageRankResult {
     pub converged: bool,
 }
 
+/// Compensated (Neumaier) summation - the algorithm behind Python's built-in `sum()` for floats, which the
+/// Python back-end uses.  With plain `+=` the rounding noise of a node with many in-links (~ in-degree * 1e-16)
+/// keeps the iteration from ever meeting a small `tol` that the Python back-end meets.
+fn compensated_sum<I: Iterator<Item = f64>>(values: I) -> f64 {
+    let mut total = 0.0_f64;
+    let mut comp = 0.0_f64;
+    for x in values {
+        let t = total + x;
+        if total.abs() >= x.abs() {
+            comp += (total - t) + x;
+        } else {
+            comp += (x - t) + total;
+        }
+        total = t;
+    }
+    if comp != 0.0 && comp.is_finite() {
+        total + comp
+    } else {
+        total
+    }
+}
+
 /// Compute PageRank scores.
 ///
 /// # Arguments
@@ -60,22 +82,23 @@ pub fn pagerank(
     for iteration in 0..max_iter {
         // Compute new scores
         for i in 0..n_nodes {
-            let mut sum = 0.0;
-            for &j in &incoming[i] {
-                if outgoing_count[j] > 0 {
-                    sum += scores[j] / outgoing_count[j] as f64;
-                }
-            }
+            let sum = compensated_sum(
+                incoming[i]
+                    .iter()
+                    .filter(|&&j| outgoing_count[j] > 0)
+                    .map(|&j| scores[j] / outgoing_count[j] as f64),
+            );
             new_scores[i] = base + damping * sum;
         }
 
         // Handle dangling nodes (no outgoing edges)
-        let dangling_sum: f64 = scores
-            .iter()
-            .enumerate()
-            .filter(|&(i, _)| outgoing_count[i] == 0)
-            .map(|(_, &s)| s)
-            .sum();
+        let dangling_sum: f64 = compensated_sum(
+            scores
+                .iter()
+                .enumerate()
+                .filter(|&(i, _)| outgoing_count[i] == 0)
+                .map(|(_, &s)| s),
+        );
 
         let dangling_contrib = damping * dangling_sum / n_nodes as f64;
         for score in &mut new_scores {
